@@ -8,7 +8,7 @@ import itertools
 import random
 
 from .common import Clause
-from .c03_tags import parse_markup, MarkupError, run_parallel_sorted
+from .c03_tags import parse_markup, MarkupError, run_parallel_sorted, time_limit
 
 # one "mention" = one way of writing an attribute on an element
 #   text: what is written; name: attribute it denotes; value: None = no value written, '' = explicitly empty
@@ -302,7 +302,26 @@ def _open_tags(out):
     return [(t['name'], t['attrs']) for t in parse_markup(out) if t['type'] == 'open']
 
 
+_TIMEOUTS = 0
+
+
 def check_snippet_elements(elems, shape, syntax, options, cache_mode, history):
+    global _TIMEOUTS
+    if _TIMEOUTS >= 2:
+        return None          # this worker already reported two non-terminating cases; do not spend the budget on more
+    try:
+        with time_limit(4):
+            return _check_snippet_elements(elems, shape, syntax, options, cache_mode, history)
+    except TimeoutError as e:
+        _TIMEOUTS += 1
+        return '%s (%s, cache=%s, history=%r): %s (an element never gets its attributes)' % (
+            _abbr_of(elems, shape), syntax, cache_mode, history and _abbr_of(history[0], history[1]), e)
+    except (RecursionError, MemoryError) as e:
+        return '%s (%s, cache=%s, history=%r): raised %s' % (
+            _abbr_of(elems, shape), syntax, cache_mode, history and _abbr_of(history[0], history[1]), type(e).__name__)
+
+
+def _check_snippet_elements(elems, shape, syntax, options, cache_mode, history):
     """elements backed by built-in snippets (and plain ones) with their own mentions, several per abbreviation.
     cache_mode: 'none' | 'dict' (config carries `cache: {}`) | 'config' (one Config object reused);
     history: None or [elems, shape] expanded first with the *same* config / cache object.
